@@ -150,6 +150,27 @@ CLAIMS = {
   "technique": "static analysis: overflow-guard dominance, in-range edge rules, sibling agreement, structural layout expressions",
   "design_ref": "DESIGN.md section 4, C12",
  },
+ "C10": {
+  "text": "The modulus table is compared with RFC 3526 group 14 derived independently from pi by integer arithmetic (and tested for "
+          "primality with its Sophie-Germain half in the thorough tier); blinded_modexp's success path is interpreted algebraically: "
+          "each BIGNUM is a linear form over {priv, blinding, 2^256} or a power of the caller's base, so the exported value is "
+          "base^(priv + 4*2^256) mod p with the blinding's coefficient exactly zero, all operations on the group-14 modulus, every "
+          "fallible BN step tested; left-padding and the numeric sanity comparison are structural. With OpenSSL's BN semantics "
+          "trusted this decides the property for all private, peer and blinding values.",
+  "note": "Trusted: OpenSSL BN_* semantics; the success path executes every BN call in source order (each is behind an error test).",
+  "technique": "static analysis: abstract interpretation with linear forms over the call sequence + constant table vs. standard",
+  "design_ref": "DESIGN.md section 4, C10",
+ },
+ "C11": {
+  "text": "Fail-closed typestate (no generate from an unseeded or stale state; entropy failure propagates before the state is "
+          "touched; instantiated set only on success), the SP 800-90A constants and reseed schedule (counter 1..256 => 256 generates "
+          "per seed, 65536-byte chunks), and exact call-sequence templates of Instantiate/Reseed/Update/Generate with buffer "
+          "provenance, plus the OS-entropy read loop. Entropy failure at each call is one CFG edge each, all analysed.",
+  "note": "Trusted: HMAC-SHA256 (C01 clauses), read(2). Not decided: bit-equality of outputs with a reference DRBG. Noted: when RDRAND "
+          "is available the code mixes extra RDRAND output after (re)seeding; its failure is ignored by design.",
+  "technique": "static analysis: typestate dataflow + call-sequence template matching against SP 800-90A",
+  "design_ref": "DESIGN.md section 4, C11",
+ },
 }
 
 NOT_APPLICABLE = {
